@@ -28,10 +28,27 @@
       str_same_output / str_same_gradient — no exception, identical outputs / scale / gradients
                           on probe tensors, in the training phase too, there also with
                           tf.random.uniform patched to fixed draws (a grid of levels).
+(f) long floats (strengthening round 3, seed C10-7): EVERY float-valued option of every class
+    (max_value, alpha, negative_slope, relu_upper_bound, threshold, temperature, u, relu_shift)
+    with values whose shortest repr needs 7-17 significant digits or exponent notation: powers of
+    two 2^-9 .. 2^-20, integers above 10^6, 7-10 digit decimals, values next to the defaults,
+    1/3, float32-rounded values, 1e-7 / 1e22, sqrt(2)*2^k +- 1 ulp and 2^k +- 1 ulp (the rounding
+    boundaries of the po2 consumer, there also under log2_rounding='floor' and the quadratic
+    approximation), negative values; also as np.float64 and assigned through the public attribute
+    of a default object.  Clauses as in (c) plus
+      str_text_denotes_option — PYTHON's reading of the printed text, bound to the constructor's
+                          signature, gives every float option exactly (independent of safe_eval
+                          and of the model);
+      str_after_setattr  — a default object with the option assigned prints what a fresh one prints.
+    Model side (device 1): a float whose shortest repr is a positional decimal of <= 15 digits is
+    sent to the model as that decimal (checked to round to the same binary64); floats outside the
+    domain of the model's reprFloat are judged by the clause oracle only.
 """
 import ast
+import fractions
 import inspect
 import keyword
+import math
 import re
 
 import numpy as np
@@ -527,6 +544,196 @@ def list_configs(name):
   return []
 
 
+# --------------------------------------------------------------------------- long float options
+# (strengthening round 3, seed C10-7) EVERY float-valued option of every class with values whose
+# shortest repr needs many significant digits.  `str(float)` is the 17-significant-digit-exact
+# shortest repr; any printing helper that formats with a fixed precision ("{:g}", "%g", "%.6f",
+# round(x, n), np.float32(x)) agrees with it on the short values of the C09 lattice and splits here.
+
+FLOAT_OPTION_NAMES = ("max_value", "alpha", "negative_slope", "relu_upper_bound", "threshold",
+                      "temperature", "u", "relu_shift")
+SQRT2 = math.sqrt(2.0)
+CONSUMER_FAMILIES = ("pow2_small", "pow2_boundary", "sqrt2_boundary", "sqrt2_dyadic")
+
+
+def _f32(v):
+  return float(np.float32(v))
+
+
+def long_float_values():
+  """[(value, family, core)] — python floats; `core` values are used for every option in the
+  quick tier, the others are sampled per option (all of them in the thorough tier and for the
+  max_value of the po2 classes, whose consumer rounds log2(max_value))"""
+  out = []
+
+  def add(v, fam, core=False):
+    v = float(v)
+    if not any(v == w for w, _, _ in out):
+      out.append((v, fam, core))
+  # powers of two: exact decimal text of 7..14 digits; below 1e-4 repr switches to exponent form
+  for k, core in ((9, True), (10, False), (12, False), (13, True), (14, False), (17, False), (20, True)):
+    add(2.0 ** -k, "pow2_small", core)
+  add(2.0 ** 20 + 1, "int_gt_1e6", True)
+  add(3000001.0, "int_gt_1e6", True)
+  add(2.0 ** 24 + 1, "int_gt_1e6")
+  add(1234567.5, "decimal_gt_1e6")
+  # short decimals that need 7..10 significant digits
+  add(0.1234567, "decimal7", True)
+  add(0.12345678, "decimal8")
+  add(6.000001, "near_default")      # next to relu_upper_bound / temperature defaults
+  add(8.000001, "near_default")
+  add(255.00001, "near_default")     # next to u = 255.0
+  add(7.999999999, "decimal10")
+  add(1.0000001, "near_one")
+  # full-length reprs (16-17 digits)
+  add(1.0 / 3.0, "full17", True)
+  add(2.0 / 3.0, "full17")
+  add(0.1 + 0.2, "full17")
+  add(_f32(0.1), "float32_rounded", True)
+  add(_f32(1.0 / 3.0), "float32_rounded")
+  add(_f32(6.000001), "float32_rounded")
+  # exponent notation
+  add(1e-7, "tiny", True)
+  add(1.2345678e-7, "tiny")
+  add(1.5e-5, "tiny")
+  add(1e16, "huge")
+  add(1.2345678901234568e+17, "huge")
+  add(1e22, "huge")
+  # rounding boundaries of the consumer (po2: log2 rounds at sqrt(2)*2^k; quadratic / floor at 2^k)
+  for k in (0, -9, 3):
+    b = SQRT2 * 2.0 ** k
+    add(b, "sqrt2_boundary", k == 0)
+    add(np.nextafter(b, 1e30), "sqrt2_boundary", k == -9)
+    add(np.nextafter(b, 0.0), "sqrt2_boundary")
+  add(1.414306640625, "sqrt2_dyadic")       # 11586/8192 > sqrt(2), 13 digits, exact decimal
+  add(1.4141845703125, "sqrt2_dyadic")      # 11585/8192 < sqrt(2)
+  add(0.70709228515625, "sqrt2_dyadic")
+  add(np.nextafter(2.0 ** -9, 1.0), "pow2_boundary")
+  add(np.nextafter(2.0 ** -9, 0.0), "pow2_boundary")
+  add(np.nextafter(4.0, 0.0), "pow2_boundary")
+  # negative values
+  add(-2.0 ** -9, "negative", True)
+  add(-0.1234567, "negative", True)
+  add(-1.0 / 3.0, "negative")
+  add(-1e-7, "negative")
+  return out
+
+
+def float_options(name, defaults):
+  """options of class `name` that take a float: by name, or because the constructor default or a
+  value of the C09 lattice is a float (qnoise_factor is not printable: recorded finding)"""
+  own = defaults[name]
+  known = L.LATTICE[name]["options"]
+  out = []
+  for o in own:
+    if o in NOT_SWEPT or o == "qnoise_factor":
+      continue
+    kinds = [own[o]] + [w for w in known.get(o, []) if not isinstance(w, (list, np.ndarray))]
+    if o in FLOAT_OPTION_NAMES or any(isinstance(w, float) for w in kinds):
+      out.append(o)
+  return out
+
+
+def long_float_configs(name, tier, rng, cls, defaults, x_legal):
+  """[(kw, family)]: every float option of the class x the long values (core values always, the
+  others sampled per option in quick), alone and — for the po2 max_value — under the rounding
+  modes of its consumer; kept when the constructor accepts them and the probe maps to finite numbers"""
+  vals = long_float_values()
+  out, seen = [], set()
+  po2 = name in ("quantized_po2", "quantized_relu_po2")
+  for o in float_options(name, defaults):
+    consumer = po2 and o == "max_value"
+    rest = [i for i, (_, _, core) in enumerate(vals) if not core]
+    n_extra = len(rest) if (tier != "quick" or consumer) else (2 if name in STOCHASTIC else 4)
+    extra = set(sorted(rng.choice(rest, size=min(n_extra, len(rest)), replace=False).tolist()))
+    ctxs = [{}]
+    if consumer:
+      ctxs += [{"log2_rounding": "floor"}, {"quadratic_approximation": True}]
+    elif o == "alpha":
+      ctxs = [{"bits": 4}] if "bits" in defaults[name] else [{}]
+    for i, (v, fam, core) in enumerate(vals):
+      if not (core or i in extra):
+        continue
+      if o == "negative_slope" and fam == "pow2_boundary":
+        # the constructors test `np.mod(np.log2(negative_slope), 1) == 0` in floating point, which
+        # accepts 2^k(1 +- 1 ulp); the model's constructor tests "is a power of two" exactly.  A
+        # validation question of C09's constructor model, not a printing one: not generated
+        continue
+      for j, ctx in enumerate(ctxs):
+        if j and tier == "quick" and not (core or fam in CONSUMER_FAMILIES):
+          continue   # the other rounding modes of the consumer: the values at ITS boundaries
+        kw = dict(ctx)
+        kw[o] = v
+        k = L._key(kw)   # pylint: disable=protected-access
+        if k in seen:
+          continue
+        seen.add(k)
+        if legal(cls, kw, x_legal):
+          out.append((kw, fam, o))
+  return out
+
+
+def _in_repr_domain(f):
+  """the domain of the model's `reprFloat`: terminating decimal, <= 15 significant digits,
+  1e-4 <= |f| < 1e16 (or zero)"""
+  if f == 0:
+    return True
+  d = f.denominator
+  while d % 2 == 0:
+    d //= 2
+  while d % 5 == 0:
+    d //= 5
+  if d != 1:
+    return False
+  a = abs(f)
+  if a < fractions.Fraction(1, 10000) or a >= 10 ** 16:
+    return False
+  k = 0
+  while (f * 10 ** k).denominator != 1:
+    k += 1
+  return k <= 17 and len(str(abs(int(f * 10 ** k)))) <= 15
+
+
+def enc_model(v, stats=None):
+  """protocol value of an option for the MODEL (device 1: a float is carried as a decimal that
+  denotes it): a Python float whose shortest repr is a positional decimal with <= 15 significant
+  digits is sent as that decimal — checked here to round to the very same binary64; every other
+  float as its exact binary value (outside the domain of the model's reprFloat: the model answers
+  '<float>' and only the clause oracle judges the case)"""
+  if isinstance(v, (float, np.floating)) and not isinstance(v, bool) and math.isfinite(float(v)):
+    v = float(v)
+    exact = fractions.Fraction(v)
+    if _in_repr_domain(exact):
+      return L.enc(v)
+    d = fractions.Fraction(repr(v))
+    if float(d) == v and _in_repr_domain(d):
+      if stats is not None:
+        stats["model_float_as_shortest_decimal"] = stats.get("model_float_as_shortest_decimal", 0) + 1
+      return {"f": [d.numerator, d.denominator]}
+    return L.enc(v)
+  return L.enc(v)
+
+
+def enc_model_env(d, stats=None):
+  return [[k, enc_model(v, stats)] for k, v in d.items()]
+
+
+def bound_reading(cls, name, text):
+  """Python's own reading of a printed text bound to the constructor's parameters: {parameter:
+  python value}, or None when the text is not a Python call expression (numpy-style lists)"""
+  py = python_read(text, name)
+  if "err" in py:
+    return None
+  try:
+    ba = inspect.signature(cls.__init__).bind(None, *[L.dec(a) for a in py["args"]],
+                                              **{k: L.dec(v) for k, v in py["kwargs"]})
+  except TypeError:
+    return None
+  out = dict(ba.arguments)
+  out.pop("self", None)
+  return out
+
+
 def c10_attrs(q, names):
   """qlattice.attrs, with tracked sequences (tf.Module wraps list attributes in ListWrapper) read as lists"""
   import collections.abc
@@ -692,7 +899,13 @@ def run(run: core.Run, tier: str):
       "(scale_axis, elements_per_scale; 16 configurations, 13 accepted by constructor and call; tracked lists of a tf.Module) of quantized_bits / "
       "quantized_linear / quantized_hswish; every printed text also with blanks after "
       "commas / around '=' / inside the parentheses, through QActivation(text), and again after a "
-      "safe_eval call with a keyword override on the same text. "
+      "safe_eval call with a keyword override on the same text; "
+      "long floats: every float-valued option of every class x values whose shortest repr needs 7-17 "
+      "significant digits or exponent notation (2^-9..2^-20, integers > 10^6, 0.1234567, 1/3, float32-rounded "
+      "0.1, 1e-7, 1e22, sqrt(2)*2^k and 2^k +- 1 ulp, values next to the defaults, negatives; 13 core values "
+      "for every option + a seeded sample of the other 32; all 45 for the po2 max_value, the boundary families "
+      "also under log2_rounding='floor' and quadratic_approximation), two per option also as np.float64, "
+      "single options also assigned to a default object (setattr, then str). "
       "non-trivial = distinct text / distinct (class, keyword set)")
   run.assumptions.append(
       "pyparsing's matching of the GetParams grammar is modelled by comma segments up to the "
@@ -707,7 +920,11 @@ def run(run: core.Run, tier: str):
       "does not distinguish a Python list from an ndarray)")
   run.assumptions.append(
       "repr(float) is modelled for terminating decimals with <= 15 significant digits in "
-      "[1e-4, 1e16); the option lattice stays inside that domain")
+      "[1e-4, 1e16); a Python float whose shortest repr is such a decimal is handed to the model as that "
+      "decimal (device 1; the harness checks float(decimal) == value exactly); floats whose repr has 16-17 "
+      "digits or an exponent are outside the model (it answers '<float>', histogram "
+      "model_out_of_repr_domain): for them only the clause oracle speaks (str_same_options, "
+      "str_text_denotes_option, outputs / gradients), nothing is compared with the model")
   reg = dict(R._QUANTIZERS_REGISTRY._container)  # pylint: disable=protected-access
   tables = core.run_driver("C09", [{"op": "tables"}])[0]
   model_cls = {c["name"]: c for c in tables["classes"]}
@@ -995,6 +1212,15 @@ def run(run: core.Run, tier: str):
     todo += [("scalarform", real, plain, forms)
              for real, plain, forms in scalar_form_configs(name, defaults, names.index(name))
              if legal(cls, plain, tf.constant(xs_all[0]))]
+    # every float-valued option with values whose shortest repr needs many digits (seed C10-7)
+    lf = long_float_configs(name, tier, rng, cls, defaults, tf.constant(xs_all[0]))
+    todo += [("longfloat", kw, kw, {o: "float:" + fam}) for kw, fam, o in lf]
+    done_o = {}
+    for kw, fam, o in lf:
+      # the same value held as np.float64 (two per option): same text, same rebuilt options
+      if len(kw) == 1 and done_o.get(o, 0) < 2:
+        done_o[o] = done_o.get(o, 0) + 1
+        todo.append(("scalarform", {o: np.float64(kw[o])}, kw, {o: "np.float64:" + fam}))
     for kind, kw, kw_plain, forms in todo:
       if "post_training_scale" in kw:
         continue
@@ -1006,8 +1232,12 @@ def run(run: core.Run, tier: str):
         q = cls(**kw)
       except Exception as e:  # pylint: disable=broad-except
         continue
-      slines.append({"op": "str", "cls": name, "kw": L.enc_env(kw_plain)})
+      slines.append({"op": "str", "cls": name, "kw": enc_model_env(kw_plain, run.extra.setdefault("model_floats", {}))})
+      rec["kw_exact"] = L.enc_env(kw_plain)
       srecs.append(rec)
+      if kind == "longfloat":
+        run.count("longfloat_%s.%s" % (name, sorted(forms)[0]))
+        run.count("longfloat_family_" + sorted(forms.values())[0].split(":")[1])
       run.case(("str", name, repr(L.enc_env(kw_plain)), repr(forms)), nontrivial=True)
       a0 = c10_attrs(q, pnames)
       rec["attrs"] = a0
@@ -1017,6 +1247,34 @@ def run(run: core.Run, tier: str):
       except Exception as e:  # pylint: disable=broad-except
         rec["str"] = {"err": L.err_tag(e)}
         continue
+      # the printed text read by PYTHON and bound to the constructor's parameters: every float option
+      # must be denoted exactly (independent of safe_eval and of the model)
+      br = bound_reading(cls, name, s) if s.count("(") == 1 else None
+      if br is not None:
+        run.count("str_text_read_by_python")
+        bad = {}
+        for n in pnames:
+          if n in NOT_SWEPT or n == "qnoise_factor":
+            continue
+          v0 = _py(a0[n])
+          if isinstance(v0, float) and not isinstance(v0, bool):
+            v1 = br.get(n, defaults[name].get(n))
+            if isinstance(v1, (list, tuple, np.ndarray)) or not v1 == v0:
+              bad[n] = v1
+        if bad:
+          rec["text_denotes"] = bad
+      # history on one object: the option assigned through the public attribute of a default object
+      if kind == "longfloat" and len(kw) == 1:
+        try:
+          q_set = cls()
+          (o_set, v_set), = kw.items()
+          setattr(q_set, o_set, v_set)
+          s_set = str(q_set)
+        except Exception as e:  # pylint: disable=broad-except
+          s_set = "<raises %s>" % L.err_tag(e)
+        run.count("history_setattr_then_str")
+        if s_set != s:
+          rec["str_after_setattr"] = s_set
       try:
         q2 = Q.get_quantizer(s)
         a2 = c10_attrs(q2, pnames)
@@ -1129,16 +1387,38 @@ def run(run: core.Run, tier: str):
     if "err" in o["construct"]:
       run.disagree("str.construct", case, "ok", o["construct"])
       continue
-    if rec["str"] != o["str"]:
+    # a float whose repr is outside the domain of the model's reprFloat (> 15 significant digits,
+    # exponent notation): the model answers "<float>"; the case is judged by the clause oracle only
+    outside = "<float>" in o["str"].get("ok", "")
+    if outside:
+      run.count("model_out_of_repr_domain")
+      mirrored = False
+    elif rec["str"] != o["str"]:
       run.disagree("str", case, rec["str"], o["str"])
       mirrored = False
     run.count("str_%s" % ("ok" if "ok" in rec["str"] else rec["str"]["err"]))
     if "err" in rec["str"]:
       run.violate("str_raises", {"class": name, "error": rec["str"]["err"]},
-                  {"kw": line["kw"], "replay": "str(%s(**kw))" % name}, mirrored=mirrored)
+                  {"kw": rec["kw_exact"], "replay": "str(%s(**kw))" % name}, mirrored=mirrored)
       continue
+    for f, v1 in sorted(rec.get("text_denotes", {}).items()):
+      run.count("str_text_denotes_other_value_%s.%s" % (name, f))
+      run.violate("str_text_denotes_option", {"class": name, "field": f},
+                  {"class": name, "kw": rec["kw_exact"], "kw_repr": repr(rec["kw"]), "str": rec["str"]["ok"],
+                   "field": f, "original": rec["attrs"][f], "original_repr": repr(_py(rec["attrs"][f])),
+                   "python_reads_the_text_as": repr(v1),
+                   "replay": "q=%s(**kw); eval(str(q)) with %s bound to the class: .%s != q.%s" % (name, name, f, f)},
+                  mirrored=False)
+    if "str_after_setattr" in rec:
+      run.violate("str_after_setattr", {"class": name},
+                  {"class": name, "kw": rec["kw_exact"], "str_fresh": rec["str"]["ok"],
+                   "str_of_default_object_after_setattr": rec["str_after_setattr"],
+                   "replay": "q=%s(); q.<option> = value; str(q) vs str(%s(<option>=value))" % (name, name)},
+                  mirrored=False)
     r, m = rec["reparse"], o["reparse"]
-    if ("err" in r) != ("err" in m) or ("err" in r and r["err"] != m["err"]):
+    if outside:
+      pass
+    elif ("err" in r) != ("err" in m) or ("err" in r and r["err"] != m["err"]):
       run.disagree("reparse", case, r.get("err", "ok"), m.get("err", "ok"))
       mirrored = False
     elif "ok" in r:
@@ -1151,13 +1431,13 @@ def run(run: core.Run, tier: str):
       run.count("reparse_" + r["err"])
       opts = sorted(k for k in rec["kw"])
       run.violate("reparse_raises", {"class": name, "error": r["err"]},
-                  {"kw": line["kw"], "forms": rec.get("forms"), "str": rec["str"]["ok"], "options": opts,
+                  {"kw": rec["kw_exact"], "forms": rec.get("forms"), "str": rec["str"]["ok"], "options": opts,
                    "replay": "get_quantizer(str(%s(**kw)))" % name}, mirrored=mirrored)
       continue
     if "str_after_use" in rec:
       run.count("str_changed_after_use")
       run.violate("str_stable_after_use", {"class": name},
-                  {"class": name, "kw": line["kw"], "forms": rec.get("forms"), "str_fresh": rec["str"]["ok"],
+                  {"class": name, "kw": rec["kw_exact"], "forms": rec.get("forms"), "str_fresh": rec["str"]["ok"],
                    "str_after_calls": rec["str_after_use"],
                    "replay": "q=%s(**kw); s=str(q); q(x) in both phases; str(q) != s" % name}, mirrored=False)
     # a printed text with a second "(" makes safe_eval drop EVERY argument: one violation for
@@ -1169,7 +1449,7 @@ def run(run: core.Run, tier: str):
       run.violate("str_all_arguments_dropped",
                   {"class": name, "option": (mm.group(1) or "<positional>") if mm else "?",
                    "wrapper": mm.group(2) if mm else "?"},
-                  {"class": name, "kw": line["kw"], "options": rec["options"], "str": rec["str"]["ok"],
+                  {"class": name, "kw": rec["kw_exact"], "options": rec["options"], "str": rec["str"]["ok"],
                    "rebuilt_options": rec["rebuilt_options"],
                    "replay": "q=%s(**kw); get_quantizer(str(q)) is the default %s()" % (name, name)},
                   mirrored=mirrored)
@@ -1178,7 +1458,7 @@ def run(run: core.Run, tier: str):
     for vname, sv, av in rec.get("routes", []):
       run.count("route_differs_" + vname.split(":")[0])
       run.violate("str_route_independent", {"class": name, "route": vname.split(":")[0]},
-                  {"class": name, "kw": line["kw"], "forms": rec.get("forms"), "options": rec["options"],
+                  {"class": name, "kw": rec["kw_exact"], "forms": rec.get("forms"), "options": rec["options"],
                    "str": rec["str"]["ok"], "text": sv, "route": vname, "rebuilt_options": rec["rebuilt_options"],
                    "rebuilt_through_route": av,
                    "replay": "get_quantizer(%r) / QActivation(%r).quantizer vs get_quantizer(%r)" % (sv, sv, rec["str"]["ok"])},
@@ -1189,7 +1469,7 @@ def run(run: core.Run, tier: str):
     for f, d in sorted(opt_diff.items()):
       run.count("str_option_differs_%s.%s" % (name, f))
       run.violate("str_same_options", {"class": name, "field": f, "falsy_original": not _py(d["original"])},
-                  {"class": name, "kw": line["kw"], "options": rec["options"], "str": rec["str"]["ok"],
+                  {"class": name, "kw": rec["kw_exact"], "options": rec["options"], "str": rec["str"]["ok"],
                    "rebuilt_options": rec["rebuilt_options"], "field": f, "original": d["original"],
                    "rebuilt": d["rebuilt"], "read_from": d["read_from"],
                    "model_expects_difference": f in m_diff,
@@ -1207,7 +1487,7 @@ def run(run: core.Run, tier: str):
         run.count("str_differs_%s.%s" % (name, f))
         run.violate(clause, {"class": name, "field": f,
                              "falsy_original": f in rec["options"] and not _py(rec["options"][f])},
-                    {"class": name, "kw": line["kw"], "options": rec["options"], "str": rec["str"]["ok"],
+                    {"class": name, "kw": rec["kw_exact"], "options": rec["options"], "str": rec["str"]["ok"],
                      "rebuilt_options": rec["rebuilt_options"], "differs": sorted(kinds),
                      "observations_differing": rec.get("obs_differing"),
                      "fields_changed": rec["diff_fields"],
